@@ -22,6 +22,8 @@ type Gen struct {
 	OnBlock  func(idx int, begin, end BlockRes, txs []TxRes)
 	curBegin BlockRes
 	finished bool
+	// Cover counts occurrences of event-emitting situations that C16_SameEvents needs (vacuity control).
+	Cover map[string]int
 }
 
 func NewGen(seed int64) *Gen {
@@ -62,6 +64,31 @@ func (g *Gen) closeBlock() {
 	if br.Panic {
 		panic("generator: EndBlock/Commit panicked: " + br.Err)
 	}
+	if g.Cover == nil {
+		g.Cover = map[string]int{}
+	}
+	perPair := map[string]int{}
+	for _, e := range br.events {
+		if e.Type == "pool_order_matched" {
+			for _, a := range e.Attributes {
+				if a.Key == "pair_id" {
+					perPair[a.Value]++
+				}
+			}
+		}
+	}
+	for _, n := range perPair {
+		if n >= 2 {
+			g.Cover["multiPoolBatches"]++ // a batch in which two pools of one pair were matched
+		}
+	}
+	for _, r := range g.Res[g.cur] {
+		if r.Tag == "liquidity.cancelall.multi" && r.OK {
+			g.Cover["cancelAllMultiPair"]++
+		}
+		g.Cover["events"] += r.NEv
+	}
+	g.Cover["events"] += br.NEv + g.curBegin.NEv
 	if g.OnBlock != nil {
 		g.OnBlock(g.cur, g.curBegin, br, g.Res[g.cur])
 	}
